@@ -32,6 +32,8 @@ use serde_json::json;
 use std::collections::{BTreeMap, BTreeSet, HashSet};
 use std::sync::{Arc, Mutex};
 
+pub const BUILT: bool = true;
+
 type Text = (String, Option<String>, Option<String>);
 type RawV = (Option<u64>, Option<u32>, Option<u32>);
 
